@@ -58,6 +58,13 @@ def programs(tier):
     out.append({"name": "wfc[int0;fails-on-poll-2]", "meta": {"init": "int0", "decide": "c1-c0-c3-stop", "path": [1], "npolls": 2,
                                                              "fn": "inc", "fails_at": 2},
                 "seq": [op, {"k": "step", "fn": {"ret": "after"}}]})
+    # the recorded final state can no longer be decoded when the completed condition is replayed: the call may raise, but it
+    # must not deliver a value that no poll returned
+    op = {"k": "wfc", "init": 0, "check": {"fn": "inc"}, "decide": DECIDES["c1-stop"], "serdes": {"prefix_broken_from": 2}}
+    out.append({"name": "wfc[int0;c1-stop;decoder-breaks-after-completion]",
+                "meta": {"init": "int0", "decide": "c1-stop", "path": [1], "npolls": 2, "fn": "inc"},
+                "seq": [{"k": "try", "catch": ["ExecutionError", "SerDesError", "CallableRuntimeError"], "body": op},
+                        {"k": "wait", "s": 1}, {"k": "wait", "s": 1}, {"k": "step", "fn": {"ret": "after"}}]})
     # a poll whose returned state cannot be serialized: the failure is recorded and never polled again
     op = {"k": "try", "catch": ["Boom", "CallableRuntimeError", "ExecutionError", "SerDesError"],
           "body": {"k": "wfc", "init": 0, "check": {"fn": "inc", "unser_at": 2}, "decide": DECIDES["c1-c0-c3-stop"]}}
@@ -208,6 +215,11 @@ def space(tier):
     cap = 30_000 if quick else 600_000
     units = []
     for p in programs(tier):
+        if "decoder-breaks" in p["name"]:
+            # no crash points here: a crash would move a *poll* into the invocations whose decoder is broken, where the
+            # state cannot be "restored by the configured serialization" at all
+            units.append(({"program": p, "cfg": {"env_kinds": ["page"], "page_modes": [0, 1, 4]}}, {"page": 1, "total": 1}, cap))
+            continue
         units.append(({"program": p, "cfg": {"env_kinds": ["crash"]}},
                       {"crash": 1, "total": 1} if quick else {"crash": 2, "total": 2}, cap))
         if "par[" in p["name"]:
